@@ -83,7 +83,8 @@ def listing():
     found = discover()
     return dict(
         classes=[dict(key=list(k), uses_kernel=class_uses_kernel(c),
-                      hooks=hooks_of(c)) for k, c in sorted(found.items())],
+                      hooks=hooks_of(c), variants=variants_of(c))
+                 for k, c in sorted(found.items()) if k[0] != 'c02_kprobe'],
         kernels=kernels(), not_automatic=NOT_AUTOMATIC)
 
 
@@ -102,6 +103,10 @@ def discover():
             if inspect.isclass(c) and issubclass(c, Equation) and \
                     c is not Equation and c.__module__ == mod.__name__:
                 found[(mod.__name__, n)] = c
+    # the kernel probes of this check (checks/c02_kprobe.py)
+    import c02_kprobe
+    for n in ('KernelSymbols', 'KernelMethods'):
+        found[('c02_kprobe', n)] = getattr(c02_kprobe, n)
     return found
 
 
@@ -126,7 +131,38 @@ def hooks_of(cls):
     return [h for h in HOOKS if hasattr(cls, h)]
 
 
-def instantiate(cls, dim):
+# Enumerated constructor options (beyond booleans) and their admissible values
+OPTION_VALUES = dict(monotonicity=[0, 1, 2], interpolation=[0, 1, 2],
+                     rsolver=[0, 1, 2, 3, 4, 5, 6], visc_option=[1, 2, 3])
+
+
+def variants_of(cls):
+    """Single-option departures from the defaults: every boolean option
+    flipped, every enumerated option at each other admissible value."""
+    out = []
+    try:
+        sig = inspect.signature(cls.__init__)
+    except (TypeError, ValueError):
+        return out
+    for p in list(sig.parameters.values())[1:]:
+        v = ADMISSIBLE.get(p.name) if p.default is inspect._empty \
+            else p.default
+        if p.name not in ('dest', 'sources', 'dim') and \
+                isinstance(v, float) and v == int(v):
+            out.append({'__int__': True})
+            break
+    for p in list(sig.parameters.values())[1:]:
+        if p.default is inspect._empty:
+            continue
+        if isinstance(p.default, bool):
+            out.append({p.name: not p.default})
+        elif p.name in OPTION_VALUES and isinstance(p.default, int):
+            out += [{p.name: v} for v in OPTION_VALUES[p.name]
+                    if v != p.default]
+    return out
+
+
+def instantiate(cls, dim, variant=None):
     sig = inspect.signature(cls.__init__)
     kw = {}
     for p in list(sig.parameters.values())[1:]:
@@ -140,6 +176,18 @@ def instantiate(cls, dim):
                 raise ValueError('no admissible value for constructor '
                                  'argument %r' % p.name)
             kw[p.name] = ADMISSIBLE[p.name]
+    variant = dict(variant or {})
+    if variant.pop('__int__', False):
+        # integral parameter values handed over as Python ints (rho0=1000
+        # rather than 1000.0): the generated attribute is then a C long
+        for p in list(sig.parameters.values())[1:]:
+            if p.name in ('dest', 'sources', 'dim') or \
+                    p.kind in (p.VAR_POSITIONAL, p.VAR_KEYWORD):
+                continue
+            v = kw.get(p.name, p.default)
+            if isinstance(v, float) and v == int(v) and abs(v) < 2 ** 31:
+                kw[p.name] = int(v)
+    kw.update(variant)
     pair = any(hasattr(cls, h) for h in PAIR)
     err = None
     for srcs in ((['a0', 'a1'], None) if pair else (None, ['a0', 'a1'])):
@@ -423,11 +471,19 @@ def compare(before, ref, imp, ref2=None):
 class Unit(object):
     """One class of the job: instance factories and set-up."""
 
-    def __init__(self, key, cls):
+    def __init__(self, key, cls, variant=None):
         self.key = key
         self.cls = cls
+        self.variant = variant or None
+        self.label = '%s.%s' % key
+        if self.variant:
+            self.label += '[%s]' % ','.join(
+                '%s=%r' % kv for kv in sorted(self.variant.items()))
         self.why = None          # reason it is not covered
         self.props = {}
+
+    def make(self, dim):
+        return instantiate(self.cls, dim, self.variant)
 
 
 def try_python(unit, dim, kernel_cls, props, seed, checked=True):
@@ -437,7 +493,7 @@ def try_python(unit, dim, kernel_cls, props, seed, checked=True):
     from pysph.sph.equation import Group
     from pysph.base.nnps import LinkedListNNPS
     pas = make_arrays(props, dim, seed)
-    obj = instantiate(unit.cls, dim)
+    obj = unit.make(dim)
     k = kernel_cls(dim=dim)
     nn = LinkedListNNPS(dim=dim, particles=pas, radius_scale=k.radius_scale)
     before = snapshot(pas)
@@ -454,7 +510,7 @@ def setup_unit(unit, dims, kernel_cls, seed):
     props = {}
     for dim in dims:
         try:
-            obj = instantiate(unit.cls, dim)
+            obj = unit.make(dim)
             for n, k in needed_arrays(obj).items():
                 props[n] = max(props.get(n, 1), k)
         except Exception as ex:
@@ -506,16 +562,17 @@ def run_classes(job):
     found = discover()
     recs = []
     units = []
-    for key in job['classes']:
-        key = tuple(key)
-        u = Unit(key, found[key])
+    for ent in job['classes']:
+        key = tuple(ent[:2])
+        u = Unit(key, found[key], ent[2] if len(ent) > 2 else None)
         if '%s.%s' % key in NOT_AUTOMATIC and not job.get('try_all'):
             u.why = NOT_AUTOMATIC['%s.%s' % key]
         else:
             setup_unit(u, job['dims'], kernel_cls, job['seed'])
         if u.why:
-            recs.append(dict(id='%s/%s.%s' % (job['jid'], key[0], key[1]),
-                             kind='class', jid=job['jid'], cls='%s.%s' % key,
+            u.reported = True
+            recs.append(dict(id='%s/%s' % (job['jid'], u.label),
+                             kind='class', jid=job['jid'], cls=u.label,
                              kernel=job['kernel'], notcovered=u.why))
         else:
             units.append(u)
@@ -535,12 +592,13 @@ def run_classes(job):
         groups = []
         for i, u in enumerate(us):
             groups.append(Group(
-                equations=[instantiate(u.cls, dim)], name='c%d' % i,
+                equations=[u.make(dim)], name='c%d' % i,
                 condition=(lambda t, dt, i=i: sel[0] == i)))
         k = kernel_cls(dim=dim)
         ae = AccelerationEval(pas, groups, k)
         SPHCompiler(ae, None).compile()
         ae.c02_eqs = [g.equations[0] for g in groups]
+        ae.c02_arrays = pas
         return ae, pas, sel, props, k
 
     def build_or_split(us, dim):
@@ -564,7 +622,7 @@ def run_classes(job):
         # reference executor first: only what Python can run is run compiled
         pas_r = make_arrays(props, dim, seed)
         before = snapshot(pas_r)
-        obj = instantiate(u.cls, dim)
+        obj = u.make(dim)
         try:
             nn = LinkedListNNPS(dim=dim, particles=pas_r,
                                 radius_scale=k.radius_scale)
@@ -580,7 +638,7 @@ def run_classes(job):
         ref2 = None
         try:
             pas_q = make_arrays(props, dim, seed)
-            rq = RefExec(pas_q, [Group(equations=[instantiate(u.cls, dim)],
+            rq = RefExec(pas_q, [Group(equations=[u.make(dim)],
                                        name='c')], kernel_cls(dim=dim),
                          LinkedListNNPS(dim=dim, particles=pas_q,
                                         radius_scale=k.radius_scale),
@@ -590,21 +648,33 @@ def run_classes(job):
         except Exception:
             ref2 = None
         # the same data in the arrays of the compiled evaluator
+        # the compiled evaluator is re-used: either its arrays are changed in
+        # place or fresh ParticleArray objects are bound to it with
+        # update_particle_arrays (then the replaced ones must stay untouched)
         fresh = make_arrays(props, dim, seed)
-        for pc, pf in zip(pas_c, fresh):
-            if pc.get_number_of_particles() != pf.get_number_of_particles():
-                pc.resize(pf.get_number_of_particles())
-            for nm in list(pf.properties) + list(pf.constants):
-                pc.get_carray(nm).get_npy_array()[:] = \
-                    pf.get_carray(nm).get_npy_array()
-            pc.align_particles()
+        pas_c = ae.c02_arrays
+        old = old_before = None
+        if seed % 2:
+            old = pas_c
+            old_before = snapshot(old)
+            ae.update_particle_arrays(fresh)
+            pas_c = ae.c02_arrays = fresh
+        else:
+            for pc, pf in zip(pas_c, fresh):
+                if pc.get_number_of_particles() != \
+                        pf.get_number_of_particles():
+                    pc.resize(pf.get_number_of_particles())
+                for nm in list(pf.properties) + list(pf.constants):
+                    pc.get_carray(nm).get_npy_array()[:] = \
+                        pf.get_carray(nm).get_npy_array()
+                pc.align_particles()
         nn2 = LinkedListNNPS(dim=dim, particles=pas_c,
                              radius_scale=k.radius_scale)
         ae.set_nnps(nn2)
         # one compute() of a freshly constructed equation: instance
         # attributes a previous run changed (counters, flags) are restored
         # in the compiled object and in the Python object behind py_* hooks
-        fresh_eq = instantiate(u.cls, dim)
+        fresh_eq = u.make(dim)
         peq = ae.c02_eqs[i]
         ceq = getattr(ae.c_acceleration_eval, peq.var_name)
         for nm, val in fresh_eq.__dict__.items():
@@ -621,29 +691,40 @@ def run_classes(job):
         finally:
             sel[0] = -1
         imp = snapshot(pas_c)
+        touched = 0
+        if old is not None:
+            after = snapshot(old)
+            touched = sum(int(np.sum(~_same(old_before[kk], after[kk])))
+                          if old_before[kk].shape == after[kk].shape
+                          else int(after[kk].size) for kk in old_before)
         kern_obj = kernel_cls(dim=dim)
         arith = is_arith(obj) and (
             not uses_kernel(obj) or
             is_arith(kern_obj, ('kernel', 'gradient', 'dwdq', 'gradient_h',
                                 'get_deltap')))
         nloop = sum(1 for e in rx.log if e[0] == 'loop')
+        props_cmp = compare(before, ref, imp, ref2)
+        # entries of the replaced arrays changed by the compute(): must be 0
+        props_cmp.append(dict(n='<replaced arrays>', cnt=touched, nbit=touched,
+                              nan=touched, err15=0, changed=0, undef=0,
+                              ubit=0))
         return dict(base, arith=bool(arith), hooks=hooks_of(u.cls),
                     uses_kernel=uses_kernel(obj), nloop=nloop,
-                    nev=len(rx.log), props=compare(before, ref, imp, ref2))
+                    route='rebind' if old is not None else 'inplace',
+                    nev=len(rx.log), props=props_cmp)
 
     for dim in job['dims']:
         live = [u for u in units if not u.why]
         for ae, pas_c, sel, props, k, us in build_or_split(live, dim):
             for i, u in enumerate(us):
                 for rep in range(job['reps']):
-                    seed = zlib.crc32(('%s.%s/%d/%d/%d' % (
-                        u.key[0], u.key[1], dim, rep, job['seed'])).encode())
-                    rid = '%s/%s.%s/%s/d%d/r%d' % (
-                        job['jid'], u.key[0], u.key[1], job['kernel'], dim,
-                        rep)
+                    seed = zlib.crc32(('%s/%d/%d/%d' % (
+                        u.label, dim, rep, job['seed'])).encode())
+                    rid = '%s/%s/%s/d%d/r%d' % (
+                        job['jid'], u.label, job['kernel'], dim, rep)
                     base = dict(id=rid, kind='class', jid=job['jid'],
-                                cls='%s.%s' % u.key, kernel=job['kernel'],
-                                dim=dim)
+                                cls=u.label, kernel=job['kernel'], dim=dim,
+                                ent=[u.key[0], u.key[1], u.variant or {}])
                     try:
                         recs.append(one_run(u, i, dim, seed, base, props, k,
                                             ae, pas_c, sel))
@@ -653,9 +734,8 @@ def run_classes(job):
         for u in units:
             if u.why and not getattr(u, 'reported', False):
                 u.reported = True
-                recs.append(dict(id='%s/%s.%s' % (job['jid'], u.key[0],
-                                                  u.key[1]),
+                recs.append(dict(id='%s/%s' % (job['jid'], u.label),
                                  kind='class', jid=job['jid'],
-                                 cls='%s.%s' % u.key, kernel=job['kernel'],
+                                 cls=u.label, kernel=job['kernel'],
                                  notcovered=u.why))
     return recs
